@@ -15,7 +15,7 @@ use mdv_core::mdparse::{Dump, NormOpts};
 use mdv_core::{json, Report, Value};
 
 const CHANGES: [&str; 13] = ["none", "add-thread", "exit-thread", "rewrite-app-region", "aborted-dump-first", "reconfigure-app-memory", "reconfigure-crash-context", "reconfigure-user-mappings", "reconfigure-principal-mapping", "retarget-to-another-process", "target-killed-unreaped", "shrink-principal-mapping", "regrow-principal-mapping"];
-const OPTSETS: [&str; 8] = ["plain", "crash-context", "app-memory", "skip-unreferenced", "size-limit", "all", "blamed-thread-that-may-exit", "skip-unreferenced-principal-in-data-region"];
+const OPTSETS: [&str; 9] = ["plain", "crash-context", "app-memory", "skip-unreferenced", "size-limit", "all", "blamed-thread-that-may-exit", "skip-unreferenced-principal-in-data-region", "crash-context-ip-in-data-region"];
 
 fn opts(set: usize, b: &Built, env: &Env) -> DumpOpts {
     let mut o = DumpOpts::default();
@@ -99,6 +99,37 @@ fn run_history(set: usize, hist: &[usize]) -> Res {
     }
     let env = env_of(&mut b);
     let mut o = opts(set, &b, &env);
+    // option set 8: the crash instruction pointer lies in the second page of a shared mapping of a file the
+    // harness truncates (step 11) and re-extends (step 12): while the file is short, that page is listed in
+    // the target's maps but cannot be read, so every request fails while copying the window around the ip
+    struct Rm(Option<std::path::PathBuf>);
+    impl Drop for Rm {
+        fn drop(&mut self) {
+            if let Some(p) = &self.0 {
+                let _ = std::fs::remove_file(p);
+            }
+        }
+    }
+    let mut backing = Rm(None);
+    if set == 8 {
+        let path = std::path::PathBuf::from(format!("/dev/shm/mdv_c19_{}_{}", std::process::id(), b.p.pid));
+        let mut content = vec![0u8; 8192];
+        for (i, x) in content.iter_mut().enumerate() {
+            *x = (i * 7 + 3) as u8;
+        }
+        if std::fs::write(&path, &content).is_err() {
+            return Res { case, fails: vec![], dumps: 0, outcome: 9, machinery: Some("cannot create the backing file".into()) };
+        }
+        backing.0 = Some(path.clone());
+        use std::os::unix::ffi::OsStrExt;
+        match b.p.mapfile(path.as_os_str().as_bytes(), 0, 8192, "rws") {
+            Ok(a) => {
+                let ip = a + 4096 + 0x400; // the whole 256-byte window lies in the second page
+                o.crash = Some(CrashSpec { tid: b.p.pid, signo: 7, code: 2, addr: ip, devs: vec![(DIM_RSP, env.main_stack.1 - 0x1800), (DIM_RIP, ip), (13, 0x5eed)] });
+            }
+            Err(e) => return Res { case, fails: vec![], dumps: 0, outcome: 9, machinery: Some(format!("mapfile: {e}")) },
+        }
+    }
     let mut reused = make_writer(b.p.pid, &o);
     let mut cfg_gen = 0usize;
     let mut dead = false;
@@ -107,11 +138,6 @@ fn run_history(set: usize, hist: &[usize]) -> Res {
     let mut sig = Vec::new();
     let mut gen = 0u8;
     for (k, ch) in hist.iter().enumerate() {
-        if *ch >= 4 && *ch <= 9 {
-            // the reused writer is manipulated directly from here on: the cross-check oracles must not
-            // judge its dumps against the options it was created with
-            crate::checks::universal::forget_writer();
-        }
         match *ch {
             1 => {
                 b.p.add_thread(Kind::Block);
@@ -181,6 +207,12 @@ fn run_history(set: usize, hist: &[usize]) -> Res {
                     o.blamed = None;
                 }
             }
+            11 if set == 8 => {
+                let _ = std::fs::OpenOptions::new().write(true).open(backing.0.as_ref().unwrap()).and_then(|f| f.set_len(4096));
+            }
+            12 if set == 8 => {
+                let _ = std::fs::OpenOptions::new().write(true).open(backing.0.as_ref().unwrap()).and_then(|f| f.set_len(8192));
+            }
             11 => {
                 // the data region loses its last page (same start, smaller extent)
                 let _ = b.p.cmd(&format!("mprotect {:#x} 4096 ---", b.pattern_addrs[0] + 2 * 4096));
@@ -208,6 +240,9 @@ fn run_history(set: usize, hist: &[usize]) -> Res {
         if !dead {
             b.p.quiesce();
         }
+        // `o` is kept in step with every re-configuration of the reused writer, so the cross-check oracles
+        // judge this request like the first request of a writer created with `o`
+        crate::checks::universal::note_writer(b.p.pid, &o);
         let mut c1 = std::io::Cursor::new(Vec::new());
         let r1 = dump_with(&mut reused, &mut c1);
         // let every thread re-enter its blocking syscall before the reference dump
@@ -218,6 +253,13 @@ fn run_history(set: usize, hist: &[usize]) -> Res {
         let mut c2 = std::io::Cursor::new(Vec::new());
         let r2 = dump_with(&mut fresh, &mut c2);
         dumps += 2;
+        if std::env::var_os("MDV_DEBUG").is_some() {
+            let d = |r: &DumpResult| match r {
+                DumpResult::Ok(b) => format!("ok {} bytes", b.len()),
+                o => format!("{o:?}"),
+            };
+            eprintln!("C19 set {set} step {k}: reused {} / fresh {}", d(&r1), d(&r2));
+        }
         match (r1, r2) {
             (DumpResult::Ok(a), DumpResult::Ok(f)) => {
                 let da = Dump::parse(&a);
@@ -255,6 +297,9 @@ fn run_history(set: usize, hist: &[usize]) -> Res {
                 let same = format!("{r1:?}").split('(').next().map(|s| s.to_string()) == format!("{r2:?}").split('(').next().map(|s| s.to_string());
                 if !same {
                     fails.push(("fail-differently".into(), format!("dump #{k}: reused writer {r1:?}, fresh writer {r2:?}")));
+                }
+                if set == 8 && !dead {
+                    continue; // a request that fails for both writers is part of this option set's histories
                 }
                 return Res { case, fails, dumps, outcome: 7, machinery: None };
             }
@@ -300,10 +345,10 @@ pub fn run(ctx: &Ctx, rep: &mut Report) {
                     if h.contains(&10) {
                         continue; // nothing follows the death of the target
                     }
-                    if (c == 11 || c == 12) && set != 7 {
+                    if (c == 11 || c == 12) && !(set == 7 || set == 8) {
                         continue;
                     }
-                    if set == 7 && !(c == 0 || c == 11 || c == 12 || c == 1) {
+                    if (set == 7 || set == 8) && !(c == 0 || c == 11 || c == 12 || c == 1) {
                         continue; // this option set is about the principal mapping changing its extent
                     }
                     let mut h2 = h.clone();
